@@ -95,6 +95,8 @@ def plan(g, seed, cap=250, budget=None, near=5):
     for n in order:
         es = list(range(len(g.out[n])))
         rng.shuffle(es)
+        # transitions into states without successors are taken last (pop() takes from the end): a tour ends there
+        es.sort(key=lambda i: 0 if not g.out[g.out[n][i][1]] else 1)
         untaken[n] = es
     # shortest-path tree from the initial state
     parent = {g.init: None}
